@@ -167,6 +167,8 @@ static void run_thread(W& w, W& other, const std::vector<Cycle>& script, bool en
                 auto acq = [&]() -> H {
                     if (cc.form == Q_TRY) return w.try_lock();
                     if constexpr (is_timed<M>) {
+                        if (cc.form == Q_TRY_FOR && cc.dur_us >= 0 && cc.hold % 2 == 0)
+                            return w.try_lock_for(std::chrono::duration<unsigned, std::micro>(static_cast<unsigned>(cc.dur_us)));
                         if (cc.form == Q_TRY_FOR) return w.try_lock_for(dur);
                         if (cc.form == Q_TRY_UNTIL) {  // the deadline may be given on any clock
                             if (cc.hold % 2) return w.try_lock_until(std::chrono::system_clock::now() + dur);
@@ -211,6 +213,9 @@ static void run_thread(W& w, W& other, const std::vector<Cycle>& script, bool en
                 auto acq = [&]() -> H {
                     if (cc.form == Q_TRY) return w.try_lock_shared();
                     if constexpr (is_timed<M>) {
+                        // the duration type is the caller's choice: signed microseconds, or (for durations >= 0) an unsigned rep
+                        if (cc.form == Q_TRY_FOR && cc.dur_us >= 0 && cc.hold % 2 == 0)
+                            return w.try_lock_shared_for(std::chrono::duration<unsigned, std::micro>(static_cast<unsigned>(cc.dur_us)));
                         if (cc.form == Q_TRY_FOR) return w.try_lock_shared_for(dur);
                         if (cc.form == Q_TRY_UNTIL) {
                             if (cc.hold % 2) return w.try_lock_shared_until(std::chrono::system_clock::now() + dur);
